@@ -660,6 +660,7 @@ pub fn mpq_spec(id: &str) -> Option<ArchiveSpec> {
         seed,
         method,
         enc,
+        locale: 0,
     };
     Some(ArchiveSpec {
         version,
